@@ -166,6 +166,11 @@ def run_check(prop: str, run_rules, *, tier='quick', replay=None, thorough_extra
         ck = Checker(prop, repo, tier)
         extra = {}
         counts = {}
+        for m in repo.modules.values():
+            for new_q, old_q, sim in getattr(m, 'renamed', []):
+                msg = f'{m.rel}: `{old_q}` is not defined; `{new_q}` (body similarity {sim}) is read as the renamed `{old_q}`'
+                ck.notes.append(msg)
+                print(f'  note: {msg}')
         try:
             run_rules(ck)
         except AnchorError as e:
